@@ -114,6 +114,8 @@ Facts101 ==
   \cup {[Base101 EXCEPT !.ntx = n, !.f21R = a, !.cur2 = b] : n \in {2, 3, 4}, a \in BOOLEAN, b \in {"same", "diff", "lastdiff"}}
   \cup {[Base101 EXCEPT !.f56 = a, !.f57 = b] : a, b \in BOOLEAN}
   \cup {[Base101 EXCEPT !.e23 = e, !.info = i] : e \in SeqsUpTo(Codes101, 2), i \in BOOLEAN}
+  \* several forbidden combinations at once (several D67 findings: their order must be stable)
+  \cup {[Base101 EXCEPT !.e23 = <<a, b, c>>] : a, b, c \in {"CHQB", "CMSW", "CMTO", "CORT", "URGP"}}
 
 OcInAll(f)  == f.ocB = "all" \/ (f.ocB = "first" /\ f.ntx = 1)
 OcInAny(f)  == f.ocB # "none"
